@@ -42,7 +42,8 @@ type faCase struct {
 		Segsidx int    `json:"segsidx"`
 		Emsg    string `json:"emsg"`
 		Ntracks int    `json:"ntracks"`
-	Truns   int    `json:"truns"`
+		Truns   int    `json:"truns"`
+		Rev     bool   `json:"rev"`
 		Flags   string `json:"flags"`
 	} `json:"p"`
 	File      []faBox   `json:"file"`
@@ -111,7 +112,7 @@ func baseTime(fragNr, track int) int64 {
 var c12EncBoxes bool
 
 // truns: track runs per track fragment (FileAsm.tla p.truns): 2 = every sample in its own trun
-func mMultiFragment(fragNr, ntracks, truns int) (moof, mdat []byte) {
+func mMultiFragment(fragNr, ntracks, truns int, rev bool) (moof, mdat []byte) {
 	var payload []byte
 	build := func(offs []int64) []byte {
 		var trafs []byte
@@ -138,7 +139,11 @@ func mMultiFragment(fragNr, ntracks, truns int) (moof, mdat []byte) {
 	offs := make([]int64, ntracks)
 	moof = build(offs)
 	at := int64(len(moof) + 8)
-	for t := 1; t <= ntracks; t++ {
+	for k := 1; k <= ntracks; k++ {
+		t := k
+		if rev { // the last track's data first
+			t = ntracks + 1 - k
+		}
 		offs[t-1] = at
 		for si, s := range fragSamples(fragNr, t) {
 			payload = append(payload, tokenBytes(t, fragNr*10+si, int(s.Size))...)
@@ -174,7 +179,7 @@ func (c *faCase) materialise() [][]byte {
 		case "emsg":
 			out[i] = mEmsg(int64(b.Frag))
 		case "moof":
-			out[i], out[i+1] = mMultiFragment(b.Frag, c.P.Ntracks, c.P.Truns)
+			out[i], out[i+1] = mMultiFragment(b.Frag, c.P.Ntracks, c.P.Truns, c.P.Rev)
 		case "mdat":
 			// built with its moof
 		case "sidx":
